@@ -184,12 +184,12 @@ impl RegExpBuilder { #[verifier::external_body] pub fn build(&mut self) -> (r: S
 // standard output as a ghost text; println!("{}", x) writes x followed by one line feed, print! writes x alone (std)
 pub struct VxStdout { pub text: Ghost<Seq<char>> }
 impl VxStdout {
-    #[verifier::external_body] pub fn vx_println(&mut self, s: &String) ensures final(self).text@ == old(self).text@ + s@ + seq!['\\n'] { unimplemented!() }
-    #[verifier::external_body] pub fn vx_print(&mut self, s: &String) ensures final(self).text@ == old(self).text@ + s@ { unimplemented!() }
+    #[verifier::external_body] pub fn vx_println(&mut self, s: &str) ensures final(self).text@ == old(self).text@ + s@ + seq!['\\n'] { unimplemented!() }
+    #[verifier::external_body] pub fn vx_print(&mut self, s: &str) ensures final(self).text@ == old(self).text@ + s@ { unimplemented!() }
 }""")
     def out_rules(t, log, w):
-        t2 = re.sub(r'\bprintln!\("\{\}", (\w+)\);', r'vx_out.vx_println(&\1);', t)
-        t2 = re.sub(r'\bprint!\("\{\}", (\w+)\);', r'vx_out.vx_print(&\1);', t2)
+        t2 = re.sub(r'\bprintln!\("\{\}", ([^;]+?)\);', r'vx_out.vx_println(&*(\1));', t)
+        t2 = re.sub(r'\bprint!\("\{\}", ([^;]+?)\);', r'vx_out.vx_print(&*(\1));', t2)
         if t2 != t: log.add('R37', w, 'println!("{}", X); / print!("{}", X);', 'vx_out.vx_println(&X); / vx_out.vx_print(&X); -- standard output as a ghost text (parameter of the slice)')
         return t2
     b.slice_fn('handle_input_output', 'pub fn handle_input_output(builder: &mut RegExpBuilder, vx_out: &mut VxStdout) -> (r: Result<(), VxError>)', '    ' + tail.strip(),
